@@ -447,6 +447,18 @@ def r1_3(ctx, rep):
                 rep.check(ok, "R1.3", fn.where, fn.qual, construct,
                           f"returned {G.show(val)}",
                           f"path {evs} returns {G.show(val)}: event #{i} is dropped")
+            # a separator that is consumed must separate: `,` is always followed by another element
+            for i, e in enumerate(path.events):
+                if e[0] == "tok" and set(e[1]) == {"COMMA"}:
+                    nxt = path.events[i + 1] if i + 1 < len(path.events) else None
+                    ok = nxt is not None and nxt[0] == "nt"
+                    construct = "a consumed `,` is followed by another argument"
+                    key = (name, construct, ok)
+                    if key not in seen:
+                        seen.add(key)
+                        rep.check(ok, "R1.3", fn.where, fn.qual, construct, "",
+                                  f"path {evs}: the `,` at event #{i} is followed by {nxt[1] if nxt else 'the end'}: "
+                                  "a trailing comma is accepted and ignored")
             # order and multiplicity
             holes_used = [i for i in expanded if path.events[i][0] == "nt"]
             dup = len(set(holes_used)) != len(holes_used)  # one token may be projected twice (.literal/.lexeme)
